@@ -335,7 +335,7 @@ func toFloat(v data.Value) float64 {
 }
 
 func (s *state) evalPrint(node *ast.PrintNode) {
-	s.walk(node.Arg)
+	s.eval(node.Arg) // the print command stays the current node
 	if _, ok := s.val.(data.Undefined); ok {
 		s.errorf("In 'print' tag, expression %q evaluates to undefined.", node.Arg.String())
 	}
